@@ -8,6 +8,11 @@ def nontrivial(req, obs):
     f = req.split("\t")
     if f[0] == "C16.conv":
         return True
+    if f[0] == "C16.seq":
+        # at least two declarations and two call sites that show a verdict
+        items = f[1].split("|") if len(f) > 1 else []
+        return (sum(1 for i in items if i.startswith("d~")) >= 2
+                and sum(1 for o in obs.split(" | ") if o not in ("=", "noname", "-")) >= 2)
     # at least two candidates of which the verdict is not simply "nothing viable": count distinct decisions
     return len(f) in (3, 4) and f[1].count(";") >= 1 and obs != "-"
 
@@ -44,8 +49,64 @@ def finding_key(req, obs, detail):
     return req
 
 
+def _shrink_seq(f):
+    """drop one item of a sequence (a declaration together with its definition and never a compiler-provided one; a helper
+    together with its triggers), then drop one parameter / argument position everywhere"""
+    items = f[1].split("|")
+    tail = f[2:]
+
+    def line(its):
+        return "\t".join([f[0], "|".join(its)] + tail)
+
+    for i, it in enumerate(items):
+        p = it.split("~")
+        if p[0] == "d":
+            cid = p[2].split(":")[0]
+            if int(cid) >= 1000:
+                continue
+            yield line([x for k, x in enumerate(items) if k != i and x != "r~" + cid])
+        elif p[0] == "h":
+            yield line([x for k, x in enumerate(items) if k != i and not x.startswith("t~%s~" % p[1])])
+        else:
+            yield line(items[:i] + items[i + 1:])
+    # one argument position less everywhere
+    arities = set()
+    for it in items:
+        p = it.split("~")
+        if p[0] == "c":
+            arities.add(len(p[2].split(",")) if p[2] else 0)
+        elif p[0] == "h":
+            arities.add(len(p[3].split(",")) if p[3] else 0)
+    if len(arities) == 1 and min(arities) > 1 and not any(it.startswith("d~") and int(it.split("~")[2].split(":")[0]) >= 1000
+                                                            for it in items):
+        n = min(arities)
+        for k in range(n):
+            new, ok = [], True
+            for it in items:
+                p = it.split("~")
+                if p[0] == "d":
+                    cid, nd, ps, suf = _split_cand(p[2])
+                    if k >= len(ps):
+                        ok = False
+                        break
+                    new.append("~".join([p[0], p[1], _join_cand(cid, nd, ps[:k] + ps[k + 1:], suf)]))
+                elif p[0] == "c":
+                    a = p[2].split(",")
+                    new.append("~".join([p[0], p[1], ",".join(a[:k] + a[k + 1:]), p[3]]))
+                elif p[0] == "h":
+                    a = p[3].split(",")
+                    new.append("~".join([p[0], p[1], p[2], ",".join(a[:k] + a[k + 1:])]))
+                else:
+                    new.append(it)
+            if ok:
+                yield line(new)
+
+
 def shrink(req):
     f = req.split("\t")
+    if f[0] == "C16.seq" and len(f) in (2, 3):
+        yield from _shrink_seq(f)
+        return
     if f[0] != "C16.resolve" or len(f) not in (3, 4):
         return
     opts = [o for o in (f[3].split(",") if len(f) == 4 and f[3] else [])]
@@ -161,6 +222,9 @@ SPEC = {
         "template_param_matches_exactly", "templates_never_panic", "resolveT_no_panic", "unique_exact_selectedT",
         # the call after the resolution: apply_casts + check_output_arguments on the selected overload
         "output_arguments_checked", "callT_perm", "callT_accepted", "callT_refused", "out_vec1_is_refused",
+        # calls interleaved with declarations: the verdict at a site is the resolution on the candidates visible there
+        "site_verdict_is_resolution_of_visible", "visible_prefix_independent", "nothing_visible_is_unknown_name",
+        "template_body_site_resolved_at_first_instantiation", "observations_are_at_places",
         # the source text of the transcribed routines, re-extracted each run
         "resolve_shape_as_modelled", "resolve_source_as_transcribed"]],
     "harness": "c16",
